@@ -1,6 +1,7 @@
 //! One module per property.
 use crate::runner::Property;
 
+pub mod c04;
 pub mod c05;
 pub mod c06;
 pub mod c12;
@@ -13,6 +14,7 @@ pub fn all() -> Vec<Box<dyn Property>> {
         Box::new(cpu::CpuProp(cpu::Which::C01)),
         Box::new(cpu::CpuProp(cpu::Which::C02)),
         Box::new(cpu::CpuProp(cpu::Which::C03)),
+        Box::new(c04::C04),
         Box::new(c05::C05),
         Box::new(c06::C06),
         Box::new(c12::C12),
